@@ -68,6 +68,17 @@ def concept_case(out: Outcome, rng, cls: str, with_cb: bool, protocol: int, thor
         if with_cb and (loaded.callbacks[0].detector is not loaded):
             out.violation(f"{cls}: the loaded callback no longer refers to the loaded detector", rep)
             return
+        if with_cb:
+            # the history recorded so far is part of the saved state: every list, whole (length and entries), and the logs the callback exposes
+            def hist_of(d):
+                c = d.callbacks[0]
+                return ({kk: [repr(e) for e in v] for kk, v in c.history.items() if all(isinstance(e, (bool, int, float, type(None), np.generic)) for e in v)},
+                        sorted(c.logs.keys()) if isinstance(c.logs, dict) else repr(type(c.logs)))
+            if hist_of(loaded) != hist_of(a.det):
+                ha, hl = hist_of(a.det)[0], hist_of(loaded)[0]
+                out.violation(f"{cls}: the history recorded before save ({ {kk: len(v) for kk, v in ha.items()} } entries) is not what the loaded "
+                              f"callback holds ({ {kk: len(v) for kk, v in hl.items()} })", rep)
+                return
         st = np.random.get_state()
         outs = []
         for d in (a.det, loaded):
@@ -79,7 +90,7 @@ def concept_case(out: Outcome, rng, cls: str, with_cb: bool, protocol: int, thor
                 except Exception as e:  # noqa: BLE001
                     o.append(("raised", type(e).__name__))
                     break
-                o.append((dets.obs(cls, d), None if not with_cb else {kk: repr(v[-1]) for kk, v in logs["h"].items() if v and isinstance(v[-1], (bool, int, float, type(None), np.generic))} ))
+                o.append((dets.obs(cls, d), None if not with_cb else {kk: (len(v), repr(v[-1])) for kk, v in logs["h"].items() if v and isinstance(v[-1], (bool, int, float, type(None), np.generic))} ))
             outs.append(o)
         if outs[0] != outs[1]:
             j = next((i for i, (u, v) in enumerate(zip(*outs)) if u != v), min(len(outs[0]), len(outs[1])))
